@@ -241,6 +241,91 @@ var edits = []progEdit{
 		}
 		return nil, "", false
 	}},
+	{"semantic:change-map-dimension-of-parameter", true, func(p *Prog, plan *Tape) (*Prog, string, bool) {
+		// T <-> map<T> (or T[] <-> map<T[]>) on a stage output nothing refers to, or on
+		// a stage input bound to null everywhere: the program still compiles, the base
+		// type name and the array dimension stay the same
+		q := cloneProg(p)
+		r := reachable(q)
+		referenced := map[string]bool{} // "STAGE.out"
+		nonNull := map[string]bool{}    // "STAGE.in" bound to something other than null
+		var walk func(pl *PipelineDef, e *Expr)
+		walk = func(pl *PipelineDef, e *Expr) {
+			if e == nil {
+				return
+			}
+			if e.Kind == ERef && !e.Self {
+				for _, c := range pl.Calls {
+					if c.Id == e.Call {
+						if len(e.Path) == 0 {
+							referenced[c.Callee+".*"] = true
+						} else {
+							referenced[c.Callee+"."+e.Path[0]] = true
+						}
+					}
+				}
+			}
+			for _, x := range e.Elems {
+				walk(pl, x)
+			}
+		}
+		for _, pl := range q.Pipelines {
+			for _, c := range pl.Calls {
+				for _, b := range c.Binds {
+					walk(pl, b.E)
+					if !(b.E != nil && b.E.Kind == ELit && b.E.Val == nil) || b.Split {
+						nonNull[c.Callee+"."+b.Param] = true
+					}
+				}
+				walk(pl, c.Disabled)
+			}
+			for _, b := range pl.Ret {
+				walk(pl, b.E)
+			}
+			for _, e := range pl.Retain {
+				walk(pl, e)
+			}
+		}
+		flip := func(t Ty) (Ty, bool) {
+			if strings.HasPrefix(t.Dims, "m") {
+				return Ty{t.Base, t.Dims[1:]}, true
+			}
+			if !strings.Contains(t.Dims, "m") && !q.IsFileType(t.Base) {
+				return Ty{t.Base, "m" + t.Dims}, true
+			}
+			return t, false
+		}
+		for _, st := range q.Stages {
+			if !r[st.Name] || strings.HasPrefix(st.Name, "PFST") || referenced[st.Name+".*"] {
+				continue
+			}
+			for i, f := range st.Outs {
+				if referenced[st.Name+"."+f.Name] || q.IsFileType(f.T.Base) {
+					continue
+				}
+				retained := false
+				for _, rn := range st.Retain {
+					if rn == f.Name {
+						retained = true
+					}
+				}
+				if nt, ok := flip(f.T); ok && !retained {
+					st.Outs[i].T = nt
+					return q, "", true
+				}
+			}
+			for i, f := range st.Ins {
+				if nonNull[st.Name+"."+f.Name] || q.IsFileType(f.T.Base) {
+					continue
+				}
+				if nt, ok := flip(f.T); ok {
+					st.Ins[i].T = nt
+					return q, "", true
+				}
+			}
+		}
+		return nil, "", false
+	}},
 	{"semantic:toggle-split", true, func(p *Prog, plan *Tape) (*Prog, string, bool) {
 		q := cloneProg(p)
 		r := reachable(q)
